@@ -316,7 +316,8 @@ class TransformDMA(RewritePattern):
         # construct the dict. we only need the strides not yet present in the lcb
         for key in bound_ops.keys():
             stride = tsl_source.data.get_stride(*key)
-            if stride not in lcb:
+            # membership by identity: another stride with an equal (step, bound) is not part of the block
+            if not any(stride is lcb_stride for lcb_stride in lcb):
                 remaining_strides[key] = RemainingStride(
                     stride_src=tsl_source.data.get_stride(*key),
                     stride_dst=tsl_dest.data.get_stride(*key),
